@@ -400,6 +400,7 @@ def _direct_task(task, out):
         "k_int_mm": lambda a, w, s: mod.qbytes_int_mm(a, w, s),
         "k_int8pack": lambda a, w, s: mod.qbytes_int8pack_mm(a, w, s),
     }
+    _unaligned_reuse(task, out)
     for N in outs + ([32] if tier == "quick" else []):
         for wkind in ("qint8", "qfloat8_e4m3fn", "qfloat8_e5m2"):
             for family in ("exact", "onehot", "generic"):
@@ -452,6 +453,44 @@ def _peraxis(q, axis):
     sc = (2.0 ** ((torch.arange(n) % 4) - 2).to(torch.float64)).to(q.dtype).reshape((n, 1) if axis == 0 else (1, n))
     out = QBytesTensor(q.qtype, axis, q._data.size(), q._data.stride(), q._data, sc)
     return out, num.decode_codes(q._data, q.qtype.name) * sc.to(torch.float64)
+
+
+def _unaligned_reuse(task, out):
+    """int8-packed route: weights living in an unaligned buffer (as after safe_load) whose content is replaced in place between
+    two calls; every call must use the current content."""
+    import optimum.quanto.library.qbytes_mm as mod
+
+    if task["dt"] != "bfloat16" or task["K"] % 16 != 0:
+        return
+    K = task["K"]
+    for N in (1, 8, 12):
+        for off in (3, 8):
+            buf = torch.zeros(N * K + 64, dtype=torch.int8)
+            start = (16 - (buf.data_ptr() % 16)) % 16 + off
+            w = buf[start:start + N * K].view(N, K)
+            assert w.data_ptr() % 16 != 0
+            x, x64, _, _ = _act("float", (4, K), torch.bfloat16, "exact", 0)
+            sc = (2.0 ** ((torch.arange(N) % 5) - 3).to(torch.float64)).to(torch.bfloat16).reshape(N, 1)
+            for step in range(3):
+                codes = _pattern(N * K, -4, 4, step * 11 + 1).reshape(N, K)
+                w.copy_(codes.to(torch.int8))
+                c = ["unaligned_reuse", N, off, step]
+                if task.get("only") and task["only"] != c:
+                    continue
+                fields = {"kind": "direct", "selector": "unaligned_reuse", "act": "float", "weight": "qint8", "dtype": "bfloat16", "family": "exact"}
+                case = dict(task, only=c)
+                journal(repr(case))
+                out["evals"] += 1
+                out["calls"] += 1
+                out["points"] += 1
+                out["nontrivial"] += 1
+                try:
+                    y = torch.ops.quanto.qbytes_mm(x, w, sc)
+                except Exception as e:  # noqa
+                    out["violations"].append(violation(PID, case, dict(fields, sub="raised"), f"raised: qbytes_mm with unaligned weights {c}: {type(e).__name__}: {str(e)[:160]}"))
+                    continue
+                for sub, msg in _judge(y, x64, codes.to(torch.float64), None, torch.bfloat16, "bfloat16", True, K, f"unaligned_reuse {c} K={K}", post=sc.to(torch.float64).flatten()):
+                    out["violations"].append(violation(PID, case, dict(fields, sub=sub), f"{sub}: {msg}"))
 
 
 def _matmul_task(task, out):
